@@ -26,36 +26,48 @@ import (
 const rule = "a case = one block offered to the real validation path (honest block assembled by the real worker, or one single-component mutant of it); " +
 	"non-trivial = honest block carrying transactions (distinct by chain kind, numbers of Quai/ETX/Qi transactions, outbound ETXs, gas) or a mutant (distinct by mutation class, verdict class and execution-error class)"
 
-func runOne(rc *runCtx, w *world, idx int, rng *hlib.Rng, logger *log.Logger) {
+func chainRng(seed uint64, idx int) *hlib.Rng {
+	return hlib.NewRng(seed*1000003 + uint64(idx)*7919 + 1)
+}
+
+func runOne(rc *runCtx, w *world, idx int, logger *log.Logger) {
 	cfg := cfgFor(idx)
-	c, err := newChain(w, cfg, rng, rc.rep, logger)
+	c, err := newChain(w, cfg, chainRng(rc.seed, idx), rc.rep, logger)
 	if err != nil {
 		rc.rep.Note("cannot create zone: " + err.Error())
 		return
 	}
 	defer c.close()
 	last := rc.blocks
+	if idx >= 1000 {
+		k := corpus[(idx-1000)%len(corpus)]
+		c.script = k.script
+		last = k.blocks
+		rc.rep.Count("corpus/" + k.name)
+	}
 	if rc.tgt != nil {
 		last = rc.tgt.block + 1
 	}
-	for i := 0; i < last; i++ {
-		stop := false
-		func() {
-			defer func() {
-				if p := recover(); p != nil {
-					if rc.verbose {
-						fmt.Println("PANIC", p, string(debug.Stack()))
+	c.n.z.Locked(func() { // production holds hc.headermu around these calls; it also keeps the worker's ticker out
+		for i := 0; i < last; i++ {
+			stop := false
+			func() {
+				defer func() {
+					if p := recover(); p != nil {
+						if rc.verbose {
+							fmt.Println("PANIC", p, string(debug.Stack()))
+						}
+						rc.rep.Fail("harness-step-panic", fmt.Sprint("panic in block step: ", p), caseJSON{ID: caseID(idx, i, 0), Seed: rc.seed, Chain: idx, Blocks: rc.blocks, Block: i, Mutant: "honest"})
+						stop = true
 					}
-					rc.rep.Fail("harness-step-panic", fmt.Sprint("panic in block step: ", p), caseJSON{ID: caseID(idx, i, 0), Seed: rc.seed, Chain: idx, Blocks: rc.blocks, Block: i, Mutant: "honest"})
-					stop = true
-				}
+				}()
+				stop = c.step(rc, i)
 			}()
-			stop = c.step(rc, i)
-		}()
-		if stop {
-			break
+			if stop {
+				break
+			}
 		}
-	}
+	})
 }
 
 func main() {
@@ -66,13 +78,13 @@ func main() {
 	}
 	setupSchedule()
 	rep := hlib.NewReport("C07", rule)
-	cw := hlib.NewCaseWriter(f.Out, "From Coq Require Import List NArith Bool.\nFrom GQ Require Import Model.C07.\nImport ListNotations.\nLocal Open Scope N_scope.\n", "C07.case", 80)
+	cw := hlib.NewCaseWriter(f.Out, "From Coq Require Import List NArith Bool.\nFrom GQ Require Import Model.C07.\nImport ListNotations.\nLocal Open Scope N_scope.\n", "C07.case", 60)
 	w := newWorld(bigInt(1337))
 	rc := &runCtx{seed: f.Seed, rep: rep, cw: cw, verbose: os.Getenv("C07_VERBOSE") != ""}
 	// plan: N = total number of blocks, spread over chains of 40 (quick) / 60 (thorough) blocks
 	rc.blocks = 40
-	rc.mutPct = 45
-	rc.caseEvery = 3
+	rc.mutPct = 30
+	rc.caseEvery = 5
 	if f.Tier == "thorough" {
 		rc.blocks = 60
 		rc.mutPct = 60
@@ -90,20 +102,17 @@ func main() {
 			m = ""
 		}
 		rc.tgt = &target{chain: cj.Chain, block: cj.Block, mutant: m}
-		rng := hlib.NewRng(rc.seed)
-		var cr *hlib.Rng
-		for i := 0; i <= cj.Chain; i++ {
-			cr = rng.Fork()
-		}
-		runOne(rc, w, cj.Chain, cr, logger)
+		runOne(rc, w, cj.Chain, logger)
 	} else {
 		nChains := (f.N + rc.blocks - 1) / rc.blocks
 		if nChains < 1 {
 			nChains = 1
 		}
-		rng := hlib.NewRng(f.Seed)
+		for k := range corpus {
+			runOne(rc, w, 1000+k, logger)
+		}
 		for i := 0; i < nChains; i++ {
-			runOne(rc, w, i, rng.Fork(), logger)
+			runOne(rc, w, i, logger)
 		}
 	}
 	cw.Close()
